@@ -32,6 +32,26 @@ fn parse_dbg(s: &str) -> (String, &str) {
     let rest = rest.strip_prefix(" })").unwrap();
     (format!("[{},{},{},{}]", k, v, l, r), rest)
 }
+/// the (key, value) pairs of a shape "[k,v,left,right]" in symmetric order: WHAT the tree stores, as
+/// opposed to HOW it is arranged. A difference in content is a contract matter (the Debug rendering is a
+/// public observable and every later lookup / iteration depends on it), a difference in arrangement is drift.
+fn inorder(shape_json: &str) -> Vec<(i64, i64)> {
+    fn walk(v: &Value, out: &mut Vec<(i64, i64)>) {
+        if let Some(a) = v.as_array() {
+            if a.len() == 4 {
+                walk(&a[2], out);
+                out.push((a[0].as_i64().unwrap_or(i64::MIN), a[1].as_i64().unwrap_or(i64::MIN)));
+                walk(&a[3], out);
+            }
+        }
+    }
+    let mut out = vec![];
+    if let Ok(v) = serde_json::from_str::<Value>(shape_json) {
+        walk(&v, &mut out);
+    }
+    out
+}
+
 pub fn shape(t: &Tree) -> String {
     parse_dbg(&format!("{:?}", t)).0
 }
@@ -312,7 +332,8 @@ pub fn replay_graph(path: &str) {
                     "get" | "get_mut" | "index" | "index_mut" => -2,
                     _ => eret,
                 };
-                let contract_ok = ob.ret == eret && ob.rv == erv && ob.len == elen && ob.set_ret == set_expected && ob.set_len == elen;
+                let content_ok = ob.shape.is_empty() || inorder(&ob.shape) == inorder(&canon(&tr["t"]));
+                let contract_ok = ob.ret == eret && ob.rv == erv && ob.len == elen && ob.set_ret == set_expected && ob.set_len == elen && content_ok;
                 let shape_ok = ob.shape == canon(&tr["t"]);
                 if !contract_ok {
                     n_contract += 1;
@@ -427,12 +448,19 @@ pub fn histories(runs: u64, len: usize, keys: i64, seed: u64) {
                         1 if present.contains(&k) => {
                             vc += 1;
                             held = None;
-                            let old = t[&k];
-                            t[&k] = vc;
+                            // Index / IndexMut panic on an absent key: if the tree has LOST a key that was stored, that panic is
+                            // data (recorded as the return value -2, which no contract accepts), not a harness failure
+                            let old = std::panic::catch_unwind(std::panic::AssertUnwindSafe(|| {
+                                let o = t[&k];
+                                t[&k] = vc;
+                                o
+                            }))
+                            .unwrap_or(-2);
                             let _ = write!(e, "{{\"op\":\"index_mut\",\"k\":{},\"v\":{},\"ret\":{},\"rv\":-1", k, vc, old);
                         }
                         2 if present.contains(&k) => {
-                            let _ = write!(e, "{{\"op\":\"index\",\"k\":{},\"v\":0,\"ret\":{},\"rv\":-1", k, t[&k]);
+                            let got = std::panic::catch_unwind(std::panic::AssertUnwindSafe(|| t[&k])).unwrap_or(-2);
+                            let _ = write!(e, "{{\"op\":\"index\",\"k\":{},\"v\":0,\"ret\":{},\"rv\":-1", k, got);
                         }
                         _ => {
                             let _ = write!(e, "{{\"op\":\"is_empty\",\"k\":0,\"v\":0,\"ret\":{},\"rv\":-1", t.is_empty() as i64);
